@@ -205,6 +205,16 @@ def run(ctx):
                 rhs2 = coq([Z(int(v)) for v in got.reshape(-1)])
                 ecases.append(("exec%d" % ci, lhs2, rhs2))
                 erecords.append(dict(rec, slice=i, arrays=[a.tolist() for a in arrays]))
+                # the full interpreter on the program in the requested order, tensordot path included
+                got3 = tree.contract_slice(arrays, i, prefer_einsum=prefer_einsum, order=order) if tree.sliced_inds \
+                    else tree.contract_core(arrays, prefer_einsum=prefer_einsum, order=order)
+                got3 = np.asarray(got3)
+                lhs3 = ("let r := exec_program {n} {s} (arr_of {a}) {e} (program {n} {s} {pe} {t} {o}) {t} in "
+                        "(fst r, flatten_pt (fst r) (snd r))").format(
+                    n=netl, s=sll, a=pts, e=e0, pe="true" if prefer_einsum else "false", t=tl, o=order_lit(tree, order))
+                rhs3 = coq((list(got3.shape), [Z(int(v)) for v in got3.reshape(-1)]))
+                ecases.append(("execprog%d" % ci, lhs3, rhs3))
+                erecords.append(dict(rec, slice=i, arrays=[a.tolist() for a in arrays], interpreter="exec_program"))
             except Exception as e:
                 ctx.fail("contract_slice raised %r" % (e,), dict(rec))
 
